@@ -2197,7 +2197,9 @@ impl Transaction {
         if config.auto_set_feature_flags {
             apply_feature_flags(
                 &mut manifest,
-                config.use_stable_row_ids,
+                // A table that uses stable row ids keeps using them, also while it has no
+                // fragment left that carries row id metadata (e.g. every row was deleted).
+                config.use_stable_row_ids || next_row_id.is_some(),
                 config.disable_transaction_file,
             )?;
         }
